@@ -1183,11 +1183,31 @@ func vpC12ProbeMixed() {
 		}
 		cliB.send("GET /b HTTP/1.1\r\nHost: vp\r\n\r\n")
 		ln.ch <- srvB
+		// same situation with two listeners (informational, reported in the detail only)
+		ln2 := &vpC12Listener{ch: make(chan net.Conn, 4), closed: make(chan struct{}), accepting: make(chan struct{})}
+		wg.Add(1)
+		go func() { defer wg.Done(); s.Serve(ln2) }() //nolint:errcheck
+		defer ln2.Close()
+		two := func() string {
+			srvC, cliC := mk(2)
+			defer cliC.close()
+			cliC.send("GET /c HTTP/1.1\r\nHost: vp\r\n\r\n")
+			ln2.ch <- srvC
+			select {
+			case p := <-entered:
+				return fmt.Sprintf("; a connection through a second Serve(ln2) is dispatched as well (%s), GetCurrentConcurrency=%d", p, s.GetCurrentConcurrency())
+			case rs := <-cliC.resp:
+				return fmt.Sprintf("; a connection through a second Serve(ln2) is answered with %+v", rs)
+			case <-time.After(vpC12DeadlineFull):
+				return "; second-listener part inconclusive"
+			}
+		}
 		select {
 		case p := <-entered:
-			vpProbe(vpC12KeyMixed, true, fmt.Sprintf("Concurrency=1: ServeConn connection in handler, listener connection also dispatched (%s); GetCurrentConcurrency=%d", p, s.GetCurrentConcurrency()))
+			d := fmt.Sprintf("Concurrency=1: ServeConn connection in handler, listener connection also dispatched (%s); GetCurrentConcurrency=%d", p, s.GetCurrentConcurrency())
+			vpProbe(vpC12KeyMixed, true, d+two())
 		case rs := <-cliB.resp:
-			vpProbe(vpC12KeyMixed, rs.status != StatusServiceUnavailable, fmt.Sprintf("listener connection answered with %+v", rs))
+			vpProbe(vpC12KeyMixed, rs.status != StatusServiceUnavailable, fmt.Sprintf("listener connection answered with %+v", rs)+two())
 		case <-time.After(vpC12DeadlineFull):
 			vpProbe(vpC12KeyMixed, true, "probe inconclusive: second connection neither served nor rejected")
 		}
